@@ -413,6 +413,25 @@ func placementTemplates() []string {
 var placementFills = []string{"' OR 1=1 --", "\"", "'", "`", "\\", "a\\", "\\'", "x\" , (select 1) as y, \"", "sleep(3)) OR 1=1 -- ", "*/", "/*", "--", "-- x", ";", "a b", "(", ")", "\x00", "é", "\xff",
 	"__subquery0", "a\"b", "x'--", "\" AS (SELECT 1) SELECT * FROM secrets -- ", "{p:String}", "$1"}
 
+// PlacementSources lists the concrete sources of the hostile placements (every
+// template with a quoted name and a string of every placement content), for
+// checks that judge any successful compilation.
+func PlacementSources() []string {
+	var out []string
+	for _, t := range placementTemplates() {
+		for _, kind := range []string{"id", "str"} {
+			for _, f := range placementFills {
+				if kind == "id" && strings.Contains(f, "\n") {
+					continue
+				}
+				c := &Case{Kind: kind, DQ: len(f)%2 == 0}
+				out = append(out, strings.Replace(t, "\x01", holeText(c, f), 1))
+			}
+		}
+	}
+	return out
+}
+
 func findSkel(name string) *skel {
 	for i := range skels {
 		if skels[i].name == name {
